@@ -40,7 +40,8 @@ EXPLANATION = (
     "mutates one of its attributes (the state handed to observe is computed afresh); R9.11 every store of Folder.visible_health_status "
     "is accompanied on every path by raising the flag Folder reports as `scanned_this_step` (the folder observation refreshes "
     "only then); R9.12 = C02's R2.2 (every Discrete leaf's value interval fits its space) applied here; R9.13 the link load band's fixed points (idle -> 0, any traffic -> at least 1, full link -> top of the declared space, "
-    "almost full -> below it, monotone) by finite-point evaluation of LinkObservation.observe. NOT decided: numerical equality of every leaf with the simulator's attribute at every step (needs "
+    "almost full -> below it, monotone) by finite-point evaluation of LinkObservation.observe. R9.14 no describe_state implementation chooses what it reports by the component's operating state (one documented exception frozen); R9.15 per-step resets in pre_timestep are unconditional. "
+    "NOT decided: numerical equality of every leaf with the simulator's attribute at every step (needs "
     "execution), whether describe_state is called after all of the step's effects, and the contents of untyped "
     "dictionaries (NetworkInterface.traffic / nmne) below their top-level key."
 )
@@ -945,6 +946,33 @@ def r9_13(ctx: Ctx) -> None:
         ctx.record("R9.13", ctx.key(f, what), f.loc(), ok, f"band by load (bandwidth {bw:g}): {got}")
 
 
+# describe_state implementations that branch on the component's own operating state today, each with its reason
+STATE_DEPENDENT_DESCRIBE = {
+    "FTPServiceABC.describe_state": "documented presentation rule: an idle FTP service is shown STOPPED (it rewrites the operating_state entry only)",
+}
+
+
+def r9_14(ctx: Ctx) -> None:
+    """Observations read the state tree; "the true value otherwise" needs describe_state to report what the component holds, not a
+    value chosen by the component's operating state (a stopped session manager still holds its sessions)."""
+    ix = ctx.ix
+    ctx.rule("R9.14", "describe_state reports the component's fields as they are: no implementation chooses what to report by the "
+                      "component's operating state (one documented exception)")
+    n = 0
+    for f in ix.all_functions():
+        if isinstance(f.node, ast.Lambda) or f.name != "describe_state" or "/simulator/" not in f.path:
+            continue
+        g = CFG(f.node)
+        conds = [c for c in g.nodes if c.kind == "cond" and c.expr_root() is not None and "operating_state" in unparse(c.expr_root())]
+        n += 1
+        ok = not conds or f.short in STATE_DEPENDENT_DESCRIBE
+        ctx.record("R9.14", ctx.key(f, "what is reported does not depend on the operating state"), f.loc(conds[0].ast) if conds else f.loc(), ok,
+                   (STATE_DEPENDENT_DESCRIBE.get(f.short) if conds else "no branch on operating_state") if ok else
+                   f"`{unparse(conds[0].expr_root())[:60]}` decides what is reported: while the component is in the other states the "
+                   "observation shows a default instead of what the component holds")
+    ctx.floor("R9.14", "describe_state implementations", n, 40)
+
+
 def check(ctx: Ctx) -> None:
     om = ObsModel(ctx.ix)
     ctx.count("E6:describe_state implementations", len(om.schema.impls()))
@@ -968,6 +996,9 @@ def check(ctx: Ctx) -> None:
     with ctx.borrowed({"R2.2": "R9.12"}):
         c02.r2_2(ctx, om)
     r9_13(ctx)
+    from .common import per_step_resets
+    per_step_resets(ctx, "R9.15")
+    r9_14(ctx)
     ctx.count("E6:describe_state functions evaluated", len(om.schema.evaluated))
 
 
